@@ -311,14 +311,26 @@ func ReadState(db *badger.DB, keys [][]byte) (State, error) {
 // Ack log lines: "I <n>" before issuing the n-th state-changing op, "A <n>" after it returned
 // nil, "P <total>" the number of crash points seen by a dry run, "E <msg>" an unexpected error.
 type ackLog struct {
-	mu sync.Mutex
-	f  *os.File
+	mu     sync.Mutex
+	f      *os.File
+	frozen bool
 }
 
 func (a *ackLog) write(format string, args ...any) {
 	a.mu.Lock()
 	defer a.mu.Unlock()
+	if a.frozen {
+		return
+	}
 	fmt.Fprintf(a.f, format+"\n", args...)
+}
+
+// freeze stops the log at the loss instant: other goroutines keep running until the process is
+// really gone, and what they acknowledge after the image was taken did not happen before the loss.
+func (a *ackLog) freeze() {
+	a.mu.Lock()
+	a.frozen = true
+	a.mu.Unlock()
 }
 
 // ParseAcks returns (largest acked index, largest issued index, points total, error line).
